@@ -20,7 +20,7 @@ def verify_all(w, only=None, timeout_s=30, verbose=True):
     eng = Engine(w)
     reports = []
     for tgt, c in w.contracts.items():
-        if c.trusted:
+        if c.trusted or getattr(c, 'bounded_only', False):
             continue
         for t in [c.target] + c.also:
             if only and not any(o in t for o in only):
